@@ -416,17 +416,40 @@ func (k *Kit) DecidingMsgs(envRole, idRole spectypes.BeaconRole, cd *spectypes.C
 
 // DecidedMsg: an aggregated commit of the first `signers` operators (a decided message) for cd at height.
 func (k *Kit) DecidedMsg(envRole, idRole spectypes.BeaconRole, cd *spectypes.ConsensusData, height specqbft.Height, signers int) *spectypes.SSVMessage {
+	ids := []spectypes.OperatorID{}
+	for i := 1; i <= signers; i++ {
+		ids = append(ids, spectypes.OperatorID(i))
+	}
+	return k.DecidedMsgBy(envRole, idRole, cd, height, ids)
+}
+
+// DecidedMsgBy: a decided message aggregated from the commits of the given operators.
+func (k *Kit) DecidedMsgBy(envRole, idRole spectypes.BeaconRole, cd *spectypes.ConsensusData, height specqbft.Height, ids []spectypes.OperatorID) *spectypes.SSVMessage {
 	id := k.MsgID(idRole)
 	root, full := cdRoot(cd)
 	sks := []*bls.SecretKey{}
-	ids := []spectypes.OperatorID{}
-	for i := 1; i <= signers; i++ {
-		sks = append(sks, k.KS.Shares[spectypes.OperatorID(i)])
-		ids = append(ids, spectypes.OperatorID(i))
+	for _, i := range ids {
+		sks = append(sks, k.KS.Shares[i])
 	}
 	m := tu.MultiSignQBFTMsg(sks, ids, &specqbft.Message{MsgType: specqbft.CommitMsgType, Height: height, Round: specqbft.FirstRound, Identifier: id[:], Root: root})
 	m.FullData = full
 	return k.qbftSSV(envRole, m)
+}
+
+// QuorumIDs: the signer sets of decided messages: "q1" = operators 1..Q, "q2" = 2..Q+1, "all" = 1..N.
+func (k *Kit) QuorumIDs(q string) []spectypes.OperatorID {
+	lo, hi := 1, int(k.Share.Quorum)
+	switch q {
+	case "q2":
+		lo, hi = 2, int(k.Share.Quorum)+1
+	case "all":
+		hi = k.Opt.N
+	}
+	ids := []spectypes.OperatorID{}
+	for i := lo; i <= hi; i++ {
+		ids = append(ids, spectypes.OperatorID(i))
+	}
+	return ids
 }
 
 // WrongRoot: a signing root nobody expects.
